@@ -47,4 +47,9 @@ def main(argv):
 
 
 if __name__ == '__main__':
+    import signal
+    try:
+        signal.signal(signal.SIGPIPE, signal.SIG_DFL)
+    except Exception:
+        pass
     sys.exit(main(sys.argv))
